@@ -30,6 +30,21 @@ AXIOM_ALLOW = {
 }
 
 
+import contextlib, fcntl
+
+
+@contextlib.contextmanager
+def build_lock():
+    """Serialises Coq/OCaml builds in the shared tree (several checks may run at once)."""
+    os.makedirs(WORK, exist_ok=True)
+    with open(os.path.join(WORK, ".buildlock"), "w") as f:
+        fcntl.flock(f, fcntl.LOCK_EX)
+        try:
+            yield
+        finally:
+            fcntl.flock(f, fcntl.LOCK_UN)
+
+
 def log(msg):
     print(f"[check] {msg}", flush=True)
 
@@ -70,12 +85,14 @@ def regen(harness_bin):
             rc2, o2, e2, _ = run([sys.executable, p], env=env, timeout=120)
             ok = ok and rc2 == 0
             msgs += "\n" + (o2 + e2).strip()
-    run([sys.executable, os.path.join(ROOT, "tools", "mkcoqproject.py")], timeout=120)
+    with build_lock():
+        run([sys.executable, os.path.join(ROOT, "tools", "mkcoqproject.py")], timeout=120)
     return ok, msgs.strip()
 
 
 def coq_make(targets, timeout=3000):
-    rc, out, err, dt = run(["make", f"-j{NPROC}"] + targets, cwd=COQ, timeout=timeout)
+    with build_lock():
+        rc, out, err, dt = run(["make", f"-j{NPROC}"] + targets, cwd=COQ, timeout=timeout)
     return rc == 0, (out + "\n" + err)[-6000:], dt
 
 
@@ -181,7 +198,8 @@ def build_driver():
     srcs = [os.path.join(OCAML, f) for f in os.listdir(OCAML) if f.endswith(".ml") or f.endswith(".mli") or f == "build.sh"]
     if os.path.exists(drv) and all(os.path.getmtime(s) <= os.path.getmtime(drv) for s in srcs):
         return True, ""
-    rc, out, err, dt = run(["sh", os.path.join(OCAML, "build.sh")], cwd=OCAML, timeout=900)
+    with build_lock():
+        rc, out, err, dt = run(["sh", os.path.join(OCAML, "build.sh")], cwd=OCAML, timeout=900)
     return rc == 0, (out + err)[-3000:]
 
 
